@@ -123,6 +123,15 @@ func (vc *VC) loopModifies(li *loopInfo) (heaps map[string]bool, ghosts map[stri
 			case *ssa.MapUpdate:
 				mh := vc.mapHeap(x.Map.Type())
 				heaps[mh+"_dom"], heaps[mh+"_val"], heaps[mh+"_size"] = true, true, true
+			case *ssa.Next:
+				if !x.IsString {
+					// the map iterator advances: its ghost visited-set and count change
+					if mr := vc.mapRanges[x.Iter]; mr != nil {
+						ks, _ := vc.mapSorts(mr.m.Type())
+						vc.ensureIterGhosts(ks)
+					}
+					ghosts["it_visited"], ghosts["it_count"] = true, true
+				}
 			case *ssa.Call:
 				allocs = true
 				c := x.Common()
@@ -294,6 +303,13 @@ func (vc *VC) enterLoop(li *loopInfo, b *ssa.BasicBlock, es []*edge, pc string, 
 	// 2. invariant on entry
 	envEntry := vc.baseEnv(st, vc.entry)
 	envEntry.local = func(name string) (SpecVal, bool) { return vc.lookupLocal(name, b, len(phis), st, entryPhi) }
+	// label loopN: the state at the loop head (on entry: the pre-loop state); unfold/use hints also serve the entry check
+	vc.labels[fmt.Sprintf("loop%d", li.ord)] = &stateLabel{st: st.clone()}
+	for _, c := range lc.Hints {
+		if c.Kind == "unfold" || c.Kind == "use" {
+			vc.applyHint(c, envEntry, pc)
+		}
+	}
 	for _, c := range lc.Invariants {
 		g := vc.evalBool(c.Expr, envEntry)
 		vc.oblige("inv-entry", fmt.Sprintf("loop#%d", li.ord)+labelSuffix(c), pc, g, vc.tagsFor(c), b.Instrs[0].Pos(), "invariant holds on loop entry: "+c.Text)
@@ -390,6 +406,7 @@ func (vc *VC) enterLoop(li *loopInfo, b *ssa.BasicBlock, es []*edge, pc string, 
 		vc.havocVal(phi, hst, pc)
 	}
 	li.havocSt = hst
+	vc.labels[fmt.Sprintf("loop%d", li.ord)] = &stateLabel{st: hst.clone()}
 	// 4. assume invariant
 	envH := vc.baseEnv(hst, vc.entry)
 	envH.local = func(name string) (SpecVal, bool) { return vc.lookupLocal(name, b, len(phis), hst, nil) }
